@@ -9,10 +9,12 @@ pub mod c08;
 pub mod c10;
 pub mod c11;
 pub mod c12;
+pub mod c13;
 pub mod c14;
 pub mod c15;
 pub mod c16;
 pub mod c19;
+pub mod c20;
 
 pub fn run(ctx: &Ctx) -> i32 {
     match ctx.prop {
@@ -21,10 +23,12 @@ pub fn run(ctx: &Ctx) -> i32 {
         "C10" => c10::run(ctx),
         "C11" => c11::run(ctx),
         "C12" => c12::run(ctx),
+        "C13" => c13::run(ctx),
         "C14" => c14::run(ctx),
         "C15" => c15::run(ctx),
         "C16" => c16::run(ctx),
         "C19" => c19::run(ctx),
+        "C20" => c20::run(ctx),
         _ => {
             println!("MACHINERY-ERROR: unknown property {}", ctx.prop);
             2
@@ -39,10 +43,12 @@ pub fn replay(prop: &'static str, path: &str) -> i32 {
         "C10" => Box::new(c10::replay),
         "C11" => Box::new(c11::replay),
         "C12" => Box::new(c12::replay),
+        "C13" => Box::new(c13::replay),
         "C14" => Box::new(c14::replay),
         "C15" => Box::new(c15::replay),
         "C16" => Box::new(c16::replay),
         "C19" => Box::new(c19::replay),
+        "C20" => Box::new(c20::replay),
         _ => {
             println!("MACHINERY-ERROR: unknown property {}", prop);
             return 2;
